@@ -88,6 +88,15 @@ func knownFindingCases() map[string]kfEntry {
 	// leaves the accumulator at 0, so sample 4 opens the next one
 	fg := fragmCase{Track: kfFragTrack(0, []uint32{10, 10, 0, 10, 10}), Layout: kfFragLayout(5), Duration: 20, NoAvoid: true}
 	out["fragmentify-zero-duration-sample-closes-fragment"] = kfEntry{"fragmentify", fg, func() *harness.Fail { return checkFragmentify(fg) }}
+	// ---- pending triage (the cases the search found are under replay/C11/pending/)
+	// durations 2^31 x 4, target 0xc0000000: {1,2} reaches 2^32 >= target, but the 32-bit accumulator reads 0
+	fw := fragmCase{Track: kfFragTrack(0, []uint32{0x80000000, 0x80000000, 0x80000000, 0x80000000}), Layout: kfFragLayout(4), Duration: 0xc0000000, NoAvoid: true}
+	out["fragmentify-accumulated-duration-wraps"] = kfEntry{"fragmentify", fw, func() *harness.Fail { return checkFragmentify(fw) }}
+	// 90 kHz, 4 sync samples of 3000 ticks, -d 47721859 (13 h): step 4294967310 ticks, kept as 14: four segments
+	ws := kfSeg("single", 47721859,
+		[]mp4build.Track{kfProgTrack(1, "vide", 90000, []uint32{3000, 3000, 3000, 3000}, []int{1, 2, 3, 4})},
+		[]mp4build.TrackLayout{{ChunkSizes: []int{4}, CttsVersion: -1, Stss: true}})
+	out["segmenter-step-truncated-to-32-bits"] = kfEntry{"segmenter", ws, func() *harness.Fail { return checkSegmenter(ws) }}
 	return out
 }
 
